@@ -95,6 +95,14 @@ impl PortSys {
 
     /// Apply one action to the real bus and to the reference; returns a violation text if they disagree.
     pub fn apply(&mut self, a: &PAct, watch: &[u8]) -> Result<(), String> {
+        let r = std::panic::catch_unwind(std::panic::AssertUnwindSafe(|| self.apply_inner(a, watch)));
+        match r {
+            Ok(x) => x,
+            Err(_) => Err(format!("{}: the emulator panicked @ {}", a.text(), crate::hv::panics::take_last_location())),
+        }
+    }
+
+    fn apply_inner(&mut self, a: &PAct, watch: &[u8]) -> Result<(), String> {
         self.clock += 7;
         self.cpu.bus.cpu_state_sum = self.clock as usize;
         let before: Vec<(u8, u8, u8)> = watch.iter().map(|&p| self.impl_bytes(p)).collect();
